@@ -473,3 +473,48 @@ func ZZ_C11_Array(elem, fixed, alen, second int) {
 	}
 	zzvrf.Reach("end")
 }
+
+// ZZ_C11_NegInt: the decimal rendering of a signed 256-bit value (negInt.Value,
+// what COPY stores for intN columns): a minus sign iff the top bit is set,
+// followed by the decimal of the two's-complement magnitude. The unsigned
+// decimal conversion itself (uint256.Dec) is an uninterpreted function of the
+// 256-bit value in the engine; the reference magnitude is computed here limb
+// by limb, independently of uint256.Neg/Abs.
+func ZZ_C11_NegInt() {
+	var x uint256.Int
+	x[0], x[1], x[2], x[3] = zzvrf.U64("limb0"), zzvrf.U64("limb1"), zzvrf.U64("limb2"), zzvrf.U64("limb3")
+	orig := x
+	ni := &negInt{&x}
+	v, err := ni.Value()
+	zzvrf.Assert(err == nil, "value-ok")
+	got, ok := v.(string)
+	zzvrf.Assert(ok, "value-is-a-decimal-string")
+	if err != nil || !ok {
+		return
+	}
+	neg := orig[3]>>63 == 1
+	var mag uint256.Int
+	if neg {
+		// two's complement: invert and add one, with carries
+		var carry uint64 = 1
+		for i := 0; i < 4; i++ {
+			w := ^orig[i]
+			s := w + carry
+			if s < w {
+				carry = 1
+			} else {
+				carry = 0
+			}
+			mag[i] = s
+		}
+	} else {
+		mag = orig
+	}
+	want := mag.Dec()
+	if neg {
+		want = "-" + want
+	}
+	zzvrf.Assert(got == want, "signed-integer-rendered-as-exact-decimal")
+	zzvrf.Assert(x == orig, "value-does-not-modify-the-integer")
+	zzvrf.Reach("end")
+}
